@@ -2,8 +2,9 @@
    (Model/Rolling.v, via its `step`), encode the per-op observable.
    case: ( trigger roller pre a0 ops )  — see harness/src/rolling_c05.rs
    result: one entry per op, entry 0 = the initial build:
-     ( ((shown disk rolled) ...) ((kind idx bytes) ...) 0 )                  *)
-From L4 Require Import Common.Val Common.FSRoll Model.Rolling.
+     ( ((shown disk requested) ...) ((kind idx bytes) ...) err )
+   err = 1 iff the call returned Err (only an append hitting a failing roller). *)
+From L4 Require Import Common.Val Common.FSRoll Model.Rolling Model.RollingFail.
 Local Open Scope N_scope.
 
 Definition dec_trigger (v : vl) : option trigger :=
@@ -25,7 +26,7 @@ Definition dec_trigger (v : vl) : option trigger :=
 Definition dec_roller (v : vl) : option roller :=
   match v with
   | VL [VN 0] => Some Delete
-  | VL [VN 1; VN b; VN c; VN _] => Some (Window (N.to_nat b) (N.to_nat c))
+  | VL (VN 1 :: VN b :: VN c :: _) => Some (Window (N.to_nat b) (N.to_nat c))   (* gz / pattern shape / background: not in the model *)
   | _ => None
   end.
 
@@ -36,12 +37,14 @@ Definition dec_pre (v : vl) : option (option bytes) :=
   | _ => None
   end.
 
-Definition dec_op (v : vl) : option op :=
+Definition dec_op (v : vl) : option xop :=
   match v with
   | VL [VN 0; chunks] =>
-    match val_list val_S chunks with Some cs => Some (Append cs) | None => None end
+    match val_list val_S chunks with Some cs => Some (XOp (Append cs)) | None => None end
   | VL [VN 1; a] =>
-    match val_bool a with Some b => Some (Restart b) | None => None end
+    match val_bool a with Some b => Some (XOp (Restart b)) | None => None end
+  | VL [VN 7; chunks] =>                      (* append while the roller is set to fail *)
+    match val_list val_S chunks with Some cs => Some (XAppendFail cs) | None => None end
   | _ => None
   end.
 
@@ -57,12 +60,12 @@ Definition enc_file (p : fname * bytes) : vl :=
   | Arch i => VL [VN 1; VN (N.of_nat i); VS (snd p)]
   end.
 
-Fixpoint trace (c : config) (ops : list op) (s : state) : list vl :=
+Fixpoint trace (c : config) (ops : list xop) (s : state) : list vl :=
   match ops with
   | [] => []
   | o :: ops' =>
-    let '(s1, ev) := step c o s in
-    VL [VL (flat_map enc_event ev); VL (map enc_file (files s1)); VN 0] :: trace c ops' s1
+    let '(s1, ev, err) := xstep c o s in
+    VL [VL (flat_map enc_event ev); VL (map enc_file (files s1)); VB err] :: trace c ops' s1
   end.
 
 Definition rolling_run (v : vl) : vl :=
@@ -70,7 +73,7 @@ Definition rolling_run (v : vl) : vl :=
   | VL [t; r; p; a; ops] =>
     match dec_trigger t, dec_roller r, dec_pre p, val_bool a, val_list dec_op ops with
     | Some tg, Some rl, Some pre, Some a0, Some os =>
-      VL (trace {| trig := tg; roll_by := rl |} (Restart a0 :: os) (raw pre))
+      VL (trace {| trig := tg; roll_by := rl |} (XOp (Restart a0) :: os) (raw pre))
     | _, _, _, _, _ => VBad
     end
   | _ => VBad
